@@ -109,6 +109,15 @@ fn main() {
         }
         std::process::exit(0);
     }
+    if args[1] == "c10-alphabet" {
+        // c10-alphabet <prefix>: the lines of C10's alphabet that start with the prefix, with their parse key (a debugging aid)
+        for l in props::c10::alphabet(true) {
+            if l.starts_with(args.get(2).map(|x| x.as_str()).unwrap_or("")) {
+                println!("{:?} => {}", l, props::lines::parse_key(&l).chars().take(100).collect::<String>());
+            }
+        }
+        std::process::exit(0);
+    }
     if args[1] == "script" {
         // script <strategy> <line>... : one administrator session on a single node with database t
         // selected; prints every reply and the messages the session received (a debugging aid)
